@@ -9,7 +9,8 @@ import SupervisorModel.Generated.Config
   UnhosedConfigParser delivers them after include processing; tokenisation is trusted), the ENV_ expansions,
   `here`, the host node name, the existing directories, the passwd table and the resolvable result handlers.
   Output: `Except String (Result)`.  Error strings starting with "exception:" stand for an exception class
-  other than ValueError; strings starting with "model:" mean "outside the modelled subset".
+  other than ValueError (only reachable through a type-inconsistent generated table); strings starting with
+  "model:" mean "outside the modelled subset".
 
   Every option name, converter and default is looked up in the GENERATED table `Sv.Gen.Config.optTable`;
   word tables (truthy/falsy, logfile words, byte suffixes, signal names, event registry, forbidden name
@@ -810,8 +811,11 @@ def poolEvents (names : List String) : Except String (List String) :=
     | none => .error "events:unknown event type"
 
 def listenerGroup (cx : Ctx) (sec : Section) : Except String GConfig :=
-  let poolName := afterPrefix "eventlistener:" sec.name
+  let suffix := afterPrefix "eventlistener:" sec.name
   let E := hereExps cx
+  match processOrGroupName suffix with
+  | .error e => .error e
+  | .ok poolName =>
   match getField cx.penv "eventlistener" sec "priority" [] E >>= asInt with
   | .error e => .error e
   | .ok priority =>
@@ -822,8 +826,7 @@ def listenerGroup (cx : Ctx) (sec : Section) : Except String GConfig :=
   match getField cx.penv "eventlistener" sec "result_handler" [] E >>= asStr with
   | .error e => .error e
   | .ok handler =>
-  -- importlib refuses a relative module name with TypeError, which options.py does not catch
-  if strStartsWith "." handler then .error "exception:TypeError" else
+  -- every import failure (AttributeError, ImportError, TypeError, ValueError) is a configuration error
   if !cx.handlers.contains handler then .error "constraint:result_handler cannot be resolved" else
   match getField cx.penv "eventlistener" sec "events" [] E >>= asStrs with
   | .error e => .error e
@@ -836,7 +839,7 @@ def listenerGroup (cx : Ctx) (sec : Section) : Except String GConfig :=
   | .error e => .error e
   | .ok redirect =>
   if redirect then .error "constraint:redirect_stderr not allowed for an eventlistener" else
-  match processesFromSection cx .listener sec poolName poolName with
+  match processesFromSection cx .listener sec suffix poolName with
   | .error e => .error e
   | .ok procs =>
     .ok { kind := .pool, name := poolName, priority, procs, buffer_size,
@@ -977,7 +980,7 @@ def readConfig (ini : Ini) : Except String Result := do
   let nocleanup ← g "nocleanup" >>= asBool
   let strip_ansi ← g "strip_ansi" >>= asBool
   let envStr0 ← g "environment" >>= asStr
-  -- expanded a second time, with here / host_node_name / the ENV_ expansions
+  -- read unexpanded (do_expand=False in the generated table), then expanded once with here / host_node_name / ENV_
   let envStr ← expand (dupdate [("here", Val.s ini.here), ("host_node_name", Val.s ini.hostNode)] penv0) envStr0
   let supEnv ← dictOfKeyValuePairs envStr
   let penv := envExps penv0 supEnv
